@@ -333,7 +333,12 @@ def run_case(col, case, stable=True):
         elif a in on:
             r += 1
     bad = judge(cc, attempts, final_state, False)
-    if rounds > 60:
+    if rounds > 60 and m == -1 and all(a in on or a == 'SubmissionFailed' for a in attempts):
+        # unlimited restarts were asked for and every exit reason is one the component lists as restartable (e.g. restartHookOn
+        # [Success] with a hook file and no maximum): the policy allows this to go on for ever; the driver stops after 60 rounds
+        bad = [b for b in bad if b[1] != 'C12:no-final-state']
+        col.count('cases_with_unlimited_restarts_cut_after_60_rounds')
+    elif rounds > 60:
         bad.append(('the component kept restarting for more than 60 rounds: %r' % (attempts[:12],), 'C12:endless'))
     if ki.get('late_launches'):
         bad.append(('a restart request after the component received its final state started the task again (%d more '
